@@ -133,7 +133,7 @@ Theorem C09_linearization_is_lru_repaired :
   forall L : list (op K V * cres_t K V),
     legal _ _ _ _ method_shape (csec K V keqb kzero vzero sizeOf repaired) None (cfin K V) (cache_init K V lim) L ->
     map snd L = map Some (s2_run K V keqb vzero sizeOf lim [] (map fst L)).
-Proof. intros. eapply cache_legal_s2_sound_heap; try eassumption; try reflexivity. exact all_atomic_now. Qed.
+Proof. intros. eapply cache_legal_s2_sound_heap; try eassumption; reflexivity. Qed.
 Print Assumptions C09_linearization_is_lru_repaired.
 
 (* Every Size() any thread observes is within the limit. *)
